@@ -194,6 +194,8 @@ def pipeline(job, work, canary=False):
         flags += ['--unwinding-assertions']
     if job.backend == 'kissat':
         flags += ['--external-sat-solver', 'kissat']
+    elif job.backend == 'cadical':
+        flags += ['--sat-solver', 'cadical']
     elif job.backend in ('cvc5', 'z3'):
         flags += ['--' + job.backend]
     cmd = ['cbmc', target] + flags + ['--json-ui', '--trace']
@@ -546,7 +548,7 @@ def write_evidence(pid, module, tier, seed, results, wall, nviol, known_hits):
             'obligations': n_ob, 'discharged': n_ok,
             'checker_cmd': 'goto-cc --function <h>; goto-instrument --dfcc <h> --enforce-contract <f> [--replace-call-with-contract <g>] [--apply-loop-contracts]; cbmc ' + ' '.join(DEFAULT_FLAGS) + ' (per group: see groups[].commands)',
             'trusted_base': ['clang 14 front end + JSON AST dump', 'cxx2c extraction (tools/cxx2c.py; rule list in DESIGN.md 2.1)',
-                             'CBMC 6.11.0 / goto-instrument dfcc', 'MiniSat (CBMC built-in)', 'spec/*.h rule library'],
+                             'CBMC 6.11.0 / goto-instrument dfcc', 'SAT back ends built into CBMC: MiniSat 2 (default) / CaDiCaL where noted per group', 'spec/*.h rule library'],
             'explanation': getattr(module, 'EXPLANATION', ''),
             'groups': groups, 'functions': functions, 'extraction_rule_hits': rule_hits,
             'bounded_stand_ins': [{'group': r.job.name, 'bound': r.job.bounded, 'status': r.status,
